@@ -562,6 +562,7 @@ type Explorer struct {
 	SymbolicMapOrder bool // map iteration order is a symbolic permutation (otherwise a fixed canonical order)
 	mapChoices  int
 	panicSite   string
+	mapOrderDefault bool
 }
 
 var cur *Explorer
@@ -1061,6 +1062,10 @@ func (e *Explorer) intrinsic(name string, fnType *types.Signature, args []value)
 		return args[0], true
 	case "VSymbolic":
 		return isSym(args[0]), true
+	case "VMapOrder":
+		// from here on (until switched off) every range over a map runs under every permutation of its entries
+		e.SymbolicMapOrder = args[0].(bool)
+		return nil, true
 	}
 	return nil, false
 }
